@@ -376,6 +376,7 @@ void pool_op(int t, const Op& op) {
       // strict mode: a caller that blocks for an object must not sit on one (client-side deadlock otherwise)
       if (S->what == 1) return_all(t);
       if (hs.size() >= 3) break;
+      if (S->pool->free_object_number() == 0) probe(S->what == 1 ? "pop_on_empty_strict_pool" : "pop_on_empty_auto_pool");
       set_crash_site("pop");
       Handle h = S->pool->pop();
       set_crash_site(nullptr);
